@@ -160,3 +160,47 @@ func d17JsonDepthBoundary(ctx *Ctx) {
 		}
 	}
 }
+
+// d17CutFamily: documents that are cut off after a length header — what allocHint (/repo 9555bea, 12d5e4f) is
+// for.  The header announces n members / bytes and nothing (or another such header) follows.  Each runs in a
+// memory-capped worker; the measured allocation of msgpack.Unmarshal is compared with the model's allocation cost
+// (lean D17.allocCostCut, driver op d17.cutfit: perSlot·slots <= measured <= 256·slots + 16384), both ways: a
+// pre-allocation by the announced length shows as too much, a model that counts too much as too little.
+func (m *c17m) d17CutFamily() {
+	ctx := m.ctx
+	str := cty.String
+	hdr := func(code byte, n uint32) []byte { // array32 0xdd / map32 0xdf
+		return []byte{code, byte(n >> 24), byte(n >> 16), byte(n >> 8), byte(n)}
+	}
+	ns := []uint32{1, 5, 1023, 1024, 1025, 65536, 1<<32 - 1}
+	add := func(name string, b []byte, t cty.Type, cut string, per int) {
+		ctx.Eval("family cut-documents "+name, true)
+		ctx.Tag("family:cut-documents:" + name)
+		m.add(c17mCase{b: b, t: t, want: "err", fix: "9555bea", cut: cut, per: per})
+	}
+	for _, n := range ns {
+		add(fmt.Sprintf("list-%d", n), hdr(0xdd, n), cty.List(str), fmt.Sprintf("(carr %d () eof)", n), 16)
+		add(fmt.Sprintf("set-%d", n), hdr(0xdd, n), cty.Set(str), fmt.Sprintf("(carr %d () eof)", n), 16)
+		add(fmt.Sprintf("map-%d", n), hdr(0xdf, n), cty.Map(str), fmt.Sprintf("(cmapk %d ())", n), 16)
+		// nested three deep: every level pre-allocates
+		add(fmt.Sprintf("list-list-list-%d", n), append(append(hdr(0xdd, n), hdr(0xdd, n)...), hdr(0xdd, n)...),
+			cty.List(cty.List(cty.List(str))), fmt.Sprintf("(carr %d () (carr %d () (carr %d () eof)))", n, n, n), 16)
+		// one complete member, then the cut
+		if n > 1 {
+			add(fmt.Sprintf("list-one-member-%d", n), append(hdr(0xdd, n), 0xa1, 'x'), cty.List(str),
+				fmt.Sprintf("(carr %d ((s x78)) eof)", n), 16)
+		}
+	}
+	// a tuple / an object must announce exactly their arity
+	tup := cty.Tuple([]cty.Type{str, str, str})
+	add("tuple-3", []byte{0x93}, tup, "(carr 3 () eof)", 16)
+	add("tuple-3-announcing-70000", hdr(0xdd, 70000), tup, "(carr 70000 () eof)", 16)
+	obj := cty.Object(map[string]cty.Type{"a": str, "b": str, "c": str})
+	add("object-3", []byte{0x83}, obj, "(cmapk 3 ())", 16)
+	add("object-3-announcing-70000", hdr(0xdf, 70000), obj, "(cmapk 70000 ())", 16)
+	// an extension header whose body is missing: within the limit the body buffer is made, beyond it nothing is
+	for _, l := range []uint32{2, 200, 1024, 1025, 1 << 20, 1<<32 - 1} {
+		b := []byte{0xc9, byte(l >> 24), byte(l >> 16), byte(l >> 8), byte(l), 12}
+		add(fmt.Sprintf("ext-%d", l), b, str, fmt.Sprintf("(cext 12 %d)", l), 1)
+	}
+}
